@@ -193,6 +193,23 @@ def run_boot(ctx, method):
                  f'ceiling on the same object {tuple(map(float, again))} != on a fresh object {tuple(map(float, fresh))}',
                  wit(second_method=m2))
         return
+    # ... and after the user reordered the conditions of that same object in place, the ceilings of the SAME method are
+    # those of the object as it is now (nothing remembered from the call above)
+    rd2 = build(case)
+    ctx.guarded('ceiling_leaves_data_unchanged', sig, boot_noise_ceiling, rd2, method=method, rdm_descriptor=by, data=wit)
+    rd2.reorder(np.array([int(i) for i in rng.permutation(n_cond)]))
+    fresh2 = RDMs(np.array(rd2.dissimilarities, copy=True),
+                  rdm_descriptors={k: list(v) for k, v in rd2.rdm_descriptors.items()},
+                  pattern_descriptors={k: list(v) for k, v in rd2.pattern_descriptors.items()})
+    ok_c, after = ctx.guarded('ceiling_leaves_data_unchanged', sig, boot_noise_ceiling, rd2, method=method, rdm_descriptor=by,
+                              data=wit)
+    ok_d2, fresh_c = ctx.guarded('ceiling_leaves_data_unchanged', sig, boot_noise_ceiling, fresh2, method=method,
+                                 rdm_descriptor=by, data=wit)
+    if ok_c and ok_d2 and not close(np.array(after, dtype=float), np.array(fresh_c, dtype=float), 1e-12, 1e-14):
+        ctx.fail('ceiling_leaves_data_unchanged', dict(sig, what='history_dependent'), f'{method} ceilings of an object whose '
+                 f'conditions were reordered in place after an earlier {method} ceiling {tuple(map(float, after))} != on a '
+                 f'freshly built object with the same content {tuple(map(float, fresh_c))}', wit(second_method=method))
+        return
     pools = tr.returns('pool_rdm')
     ctx.count('pool_calls_traced', len(pools))
     d = case['v'][:, keep]
